@@ -32,7 +32,7 @@ impl RecordsBounds {
 
         let end = if key_is_exact {
             Bound::Included(start.clone())
-        } else if increment_by_one(&mut key_end) {
+        } else if prefix_successor(&mut key_end) {
             Bound::Excluded((ns, author, key_end.into()))
         } else if increment_by_one(&mut author_end) {
             Bound::Excluded((ns, author_end, Bytes::new()))
@@ -116,7 +116,7 @@ impl ByKeyBounds {
 
                 let mut ns_end = ns.to_bytes();
                 let mut key_end = prefix.to_vec();
-                let end = if increment_by_one(&mut key_end) {
+                let end = if prefix_successor(&mut key_end) {
                     Bound::Excluded((ns.to_bytes(), key_end.into(), [0u8; 32]))
                 } else if increment_by_one(&mut ns_end) {
                     Bound::Excluded((ns_end, Bytes::new(), [0u8; 32]))
@@ -168,6 +168,21 @@ fn increment_by_one(value: &mut [u8]) -> bool {
         } else {
             *char = 0;
         }
+    }
+    false
+}
+
+/// Turn a variable-length key prefix into the smallest byte string that is greater than every
+/// string starting with that prefix: strip trailing 255 bytes, then increment the last byte.
+///
+/// Returns false if there is no such string (the prefix is empty or all bytes are 255).
+fn prefix_successor(value: &mut Vec<u8>) -> bool {
+    while let Some(last) = value.last_mut() {
+        if *last != 255 {
+            *last += 1;
+            return true;
+        }
+        value.pop();
     }
     false
 }
